@@ -42,7 +42,7 @@ def scenario_for(variant):
         from pydcop.infrastructure.communication import InProcessCommunicationLayer
         from pydcop.infrastructure.computations import Message, MessagePassingComputation, register
 
-        obs = {"handled": [], "posted": [], "returned": [], "shutdown_called_at": None, "dequeues": []}
+        obs = {"handled": [], "posted": [], "returned": [], "shutdown_called_at": None, "dequeues": [], "spans": []}
 
         class Rec(MessagePassingComputation):
             @register("m")
@@ -65,10 +65,13 @@ def scenario_for(variant):
                     mid = (pid, k, ty)
                     obs["posted"].append(mid)
                     m = Message("m", mid)
+                    obs["spans"].append(["post", len(obs["spans"]), None])
+                    span = obs["spans"][-1]
                     if route == "local":
                         a1._messaging.post_msg(f"s{pid}", "c", m, ty)
                     else:
                         a2._messaging.post_msg(f"s{pid}", "c", m, ty)
+                    obs["spans"].append(["post-end", len(obs["spans"]), span[1]])
                     obs["returned"].append(mid)
 
             return body
@@ -84,8 +87,10 @@ def scenario_for(variant):
             t.start()
         if cfg["late"]:
             def registrar():
+                obs["spans"].append(["reg", len(obs["spans"]), None])
                 a1.add_computation(comp)
                 a2.discovery.register_computation("c", "a1", publish=False)
+                obs["spans"].append(["reg-end", len(obs["spans"]), None])
                 comp.start()
 
             # registration is an operation of the hosting agent: in the runtime it happens on the agent thread (deploy
@@ -109,6 +114,23 @@ def scenario_for(variant):
     return scenario
 
 
+def registration_overlaps_a_post(obs):
+    """True iff some post_msg call was in progress while the registration was (a post racing with the registration)."""
+    sp = obs["spans"]
+    reg = [i for k, i, _ in sp if k == "reg"]
+    reg_end = [i for k, i, _ in sp if k == "reg-end"]
+    if not reg:
+        return False
+    r0, r1 = reg[0], (reg_end[0] if reg_end else len(sp))
+    ends = {ref: i for k, i, ref in sp if k == "post-end"}
+    for k, i, _ in sp:
+        if k == "post":
+            e = ends.get(i, len(sp))
+            if i < r1 and e > r0:
+                return True
+    return False
+
+
 def judge(variant, choices, obs, outcome, part):
     case = {"variant": variant, "choices": choices}
     if outcome["abort"] and outcome["abort"][0] == "divergence":
@@ -129,7 +151,8 @@ def judge(variant, choices, obs, outcome, part):
         n = handled.count(tuple(mid))
         if n != 1:
             late = VARIANTS[variant]["late"]
-            key = ("C18|lost|" + ("registration-race" if late else "shutdown-window")) if n == 0 else f"C18|duplicated|{'late' if late else 'registered'}"
+            race = late and registration_overlaps_a_post(obs)
+            key = ("C18|lost|" + ("registration-race" if race else ("parked-before-registration" if late else "shutdown-window"))) if n == 0 else f"C18|duplicated|{'late' if late else 'registered'}"
             part.violation(
                 key,
                 f"{variant}: message {mid} (post returned before clean_shutdown) was handled {n} times; handled={handled}", case)
@@ -139,7 +162,7 @@ def judge(variant, choices, obs, outcome, part):
         for ty in {m[2] for m in handled if m[0] == pid}:
             seq = [m[1] for m in handled if m[0] == pid and m[2] == ty]
             if seq != sorted(seq):
-                part.violation(f"C18|sender-fifo-broken|{'registration-race' if VARIANTS[variant]['late'] else 'registered'}", f"{variant}: sender {pid} type {ty} handled in order {seq}; handled={handled}", case)
+                part.violation(f"C18|sender-fifo-broken|{('registration-race' if registration_overlaps_a_post(obs) else 'parked-before-registration') if VARIANTS[variant]['late'] else 'registered'}", f"{variant}: sender {pid} type {ty} handled in order {seq}; handled={handled}", case)
                 verdicts.append("fifo")
     # priority: when m is handed over, no message whose post had already returned at the previous hand-over (so it was
     # certainly queued before this dequeue) and that is still unhandled has a strictly lower type
@@ -194,7 +217,7 @@ def default_length(variant):
 
 def run(ctx):
     ctx.level = "model_checking"
-    small = ("local-same-type", "local-mixed", "shutdown-race", "late-three")
+    small = ("local-same-type", "local-mixed", "shutdown-race")
     bounds = {v: ((2 if v in small else 1) if ctx.quick else (3 if v in small else 2)) for v in VARIANTS}
     bound = bounds
     items = []
